@@ -322,6 +322,280 @@ Proof.
 Qed.
 End RG.
 
+(* ------------------------------------------------------------------------------------------ *)
+(** * 6. [retain] with an arbitrary closure
+    [Retain.retain_spec] is proved for closures whose verdict does not depend on the invocation
+    count.  Here: (a) [_retain] depends on the closure only through the answers to the invocations
+    it actually makes ([ret_ext]); (b) whatever the closure answers, the invocations that return
+    are a prefix of the post-order entry list ([ret_calls_post]), so no key is called twice;
+    (c) hence every run with an arbitrary closure [f] is also the run of a closure with
+    count-independent verdicts ([fq], which answers as [f] did on that run), and [retain_spec]
+    transfers ([retain_any_predicate]). *)
+Section RX.
+Variables (pfx V : Type).
+Notation tree := (Trie.tree pfx V).
+Notation ret := (Trie.ret pfx V).
+
+Definition agree (f f' : nat -> pfx -> V -> option bool) (log log' : list (pfx * V)) : Prop :=
+  forall k e, nth_error (rev log') k = Some e -> length log <= k -> f' k (fst e) (snd e) = f k (fst e) (snd e).
+
+Lemma agree_sub f f' log log' c2 lo c0 li :
+  agree f f' log log' -> log' = c2 ++ lo -> li = c0 ++ log -> agree f f' li lo.
+Proof.
+  intros A -> -> k e Hn Hk. apply A.
+  - rewrite rev_app_distr. rewrite nth_error_app1; [exact Hn|]. apply nth_error_Some. congruence.
+  - rewrite app_length in Hk. lia.
+Qed.
+
+Lemma nth_rev_last (l : list (pfx * V)) e : nth_error (rev (e :: l)) (length l) = Some e.
+Proof. cbn [rev]. rewrite nth_error_app2; rewrite rev_length; [|lia]. rewrite Nat.sub_diag. reflexivity. Qed.
+
+Lemma ret_ext (f f' : nat -> pfx -> V -> option bool) (t : tree) :
+  forall hp a log t' st a' log',
+  ret f hp t (a, log) = (t', st, (a', log')) ->
+  (exists c, log' = c ++ log) /\
+  (agree f f' log log' ->
+   (st = RPanic -> forall p x, f (length log') p x = None -> f' (length log') p x = None) ->
+   ret f' hp t (a, log) = (t', st, (a', log'))).
+Proof.
+  induction t as [|i p v l IHl r IHr]; intros hp a log t' st a' log' H.
+  - cbn in H. inversion H; subst. split; [exists []; reflexivity|]. intros _ _. reflexivity.
+  - cbn [Trie.ret] in H |- *.
+    destruct (ret f true l (a, log)) as [[l1 sl] [a1 log1]] eqn:El.
+    destruct (IHl _ _ _ _ _ _ _ El) as [[c1 Ec1] Xl].
+    destruct sl as [fl|].
+    2:{ inversion H; subst. split; [exists c1; reflexivity|]. intros A P.
+        rewrite Xl; [reflexivity | exact A | exact P]. }
+    destruct (fl && (hp && is_none v)) eqn:B.
+    { cbn [fst snd] in H. destruct (IHr _ _ _ _ _ _ _ H) as [[c2 Ec2] Xr].
+      split; [exists (c2 ++ c1); subst; apply app_assoc|].
+      intros A P. rewrite Xl; [|exact (agree_sub f f' log log' c2 log1 [] log A Ec2 eq_refl) | discriminate].
+      rewrite B. cbn [fst snd]. apply Xr; [|exact P].
+      exact (agree_sub f f' log log' [] log' c1 log1 A eq_refl Ec1). }
+    destruct (ret f true r (a1, log1)) as [[r1 sr] [a2 log2]] eqn:Er.
+    destruct (IHr _ _ _ _ _ _ _ Er) as [[c2 Ec2] Xr].
+    assert (E2 : log2 = (c2 ++ c1) ++ log) by (subst; apply app_assoc).
+    destruct sr as [fr|].
+    2:{ inversion H; subst log'. subst t' st a'. split; [exists (c2 ++ c1); exact E2|]. intros A P.
+        rewrite Xl; [|exact (agree_sub f f' log log2 c2 log1 [] log A Ec2 eq_refl) | discriminate].
+        rewrite B, Xr; [reflexivity | | exact P].
+        exact (agree_sub f f' log log2 [] log2 c1 log1 A eq_refl Ec1). }
+    assert (Hgo : forall log', (exists c, log' = c ++ log2) -> agree f f' log log' ->
+              ret f' true l (a, log) = (l1, RDone fl, (a1, log1)) /\
+              ret f' true r (a1, log1) = (r1, RDone fr, (a2, log2))).
+    { intros lg [c3 Ec3] A. split.
+      - apply Xl; [|discriminate]. apply (agree_sub f f' log lg (c3 ++ c2) log1 [] log A); [|reflexivity].
+        rewrite Ec3, Ec2. rewrite app_assoc. reflexivity.
+      - apply Xr; [|discriminate]. exact (agree_sub f f' log lg c3 log2 c1 log1 A Ec3 Ec1). }
+    destruct (fr && (hp && is_none v)) eqn:B2.
+    { cbn [fst snd] in H. inversion H; subst log'. subst t' st a'.
+      split; [exists (c2 ++ c1); exact E2|]. intros A P.
+      destruct (Hgo log2 (ex_intro _ [] eq_refl) A) as [G1 G2]. rewrite G1, B, G2, B2. reflexivity. }
+    destruct v as [x|].
+    2:{ inversion H; subst log'. subst t' st a'.
+        split; [exists (c2 ++ c1); exact E2|]. intros A P.
+        destruct (Hgo log2 (ex_intro _ [] eq_refl) A) as [G1 G2]. rewrite G1, B, G2, B2. reflexivity. }
+    cbn [fst snd] in H.
+    destruct (f (length log2) p x) as [[|]|] eqn:F.
+    + inversion H; subst log'. subst t' st a'.
+      split; [exists ((p, x) :: c2 ++ c1); rewrite E2; reflexivity|]. intros A P.
+      destruct (Hgo ((p, x) :: log2) (ex_intro _ [(p, x)] eq_refl) A) as [G1 G2].
+      rewrite G1, B, G2, B2. cbn [fst snd].
+      assert (F' : f' (length log2) p x = Some true).
+      { rewrite <- F. apply (A (length log2) (p, x)); [apply nth_rev_last|]. rewrite E2, app_length. lia. }
+      rewrite F'. reflexivity.
+    + destruct (remove_self pfx V hp i p (Some x) l1 r1 a2) as [[t1 fl1] a3] eqn:RS.
+      inversion H; subst log'. subst t' st a'.
+      split; [exists ((p, x) :: c2 ++ c1); rewrite E2; reflexivity|]. intros A P.
+      destruct (Hgo ((p, x) :: log2) (ex_intro _ [(p, x)] eq_refl) A) as [G1 G2].
+      rewrite G1, B, G2, B2. cbn [fst snd].
+      assert (F' : f' (length log2) p x = Some false).
+      { rewrite <- F. apply (A (length log2) (p, x)); [apply nth_rev_last|]. rewrite E2, app_length. lia. }
+      rewrite F', RS. reflexivity.
+    + inversion H; subst log'. subst t' st a'.
+      split; [exists (c2 ++ c1); exact E2|]. intros A P.
+      destruct (Hgo log2 (ex_intro _ [] eq_refl) A) as [G1 G2].
+      rewrite G1, B, G2, B2. cbn [fst snd]. rewrite (P eq_refl p x F). reflexivity.
+Qed.
+
+(** the post-order list of stored entries: the order in which [_retain] visits them *)
+Fixpoint post (t : tree) : list (pfx * V) :=
+  match t with
+  | Leaf => []
+  | Node _ p v l r => post l ++ post r ++ (match v with Some x => [(p, x)] | None => [] end)
+  end.
+
+Lemma post_perm (t : tree) : Permutation (post t) (entries t).
+Proof.
+  induction t as [|i p v l IHl r IHr]; [constructor|]. cbn [post entries].
+  rewrite app_assoc. eapply Permutation_trans; [apply Permutation_app_comm|].
+  apply Permutation_app_head. apply Permutation_app; assumption.
+Qed.
+
+(** whatever the closure does, the invocations that returned are a prefix of the post-order list,
+    the whole list if no invocation panicked *)
+Lemma ret_calls_post (f : nat -> pfx -> V -> option bool) (t : tree) :
+  forall hp a log t' st a' log',
+  ret f hp t (a, log) = (t', st, (a', log')) ->
+  exists calls rest, log' = rev calls ++ log /\ post t = calls ++ rest /\ (st <> RPanic -> rest = []).
+Proof.
+  induction t as [|i p v l IHl r IHr]; intros hp a log t' st a' log' H.
+  - cbn in H. inversion H; subst. exists [], []. repeat split; reflexivity.
+  - cbn [Trie.ret] in H. cbn [post].
+    destruct (ret f true l (a, log)) as [[l1 sl] [a1 log1]] eqn:El.
+    destruct (IHl _ _ _ _ _ _ _ El) as [cl [rl [Ll [Pl Dl]]]].
+    destruct sl as [fl|].
+    2:{ inversion H; subst. exists cl, (rl ++ post r ++ match v with Some x => [(p, x)] | None => [] end).
+        split; [reflexivity|]. split; [rewrite Pl, <- app_assoc; reflexivity | intros N; congruence]. }
+    rewrite (Dl ltac:(discriminate)), app_nil_r in Pl.
+    destruct (fl && (hp && is_none v)) eqn:B.
+    { cbn [fst snd] in H. destruct (IHr _ _ _ _ _ _ _ H) as [cr [rr [Lr [Pr Dr]]]].
+      assert (v = None) by (destruct v; [rewrite !andb_false_r in B; discriminate | reflexivity]). subst v.
+      exists (cl ++ cr), rr. split; [rewrite Lr, Ll, rev_app_distr, app_assoc; reflexivity|].
+      split; [rewrite Pl, Pr, app_nil_r, app_assoc; reflexivity | exact Dr]. }
+    destruct (ret f true r (a1, log1)) as [[r1 sr] [a2 log2]] eqn:Er.
+    destruct (IHr _ _ _ _ _ _ _ Er) as [cr [rr [Lr [Pr Dr]]]].
+    assert (L2 : log2 = rev (cl ++ cr) ++ log) by (rewrite Lr, Ll, rev_app_distr, app_assoc; reflexivity).
+    destruct sr as [fr|].
+    2:{ inversion H; subst log'. subst t' st a'.
+        exists (cl ++ cr), (rr ++ match v with Some x => [(p, x)] | None => [] end).
+        split; [exact L2|]. split; [rewrite Pl, Pr, <- !app_assoc; reflexivity | intros N; congruence]. }
+    rewrite (Dr ltac:(discriminate)), app_nil_r in Pr.
+    destruct (fr && (hp && is_none v)) eqn:B2.
+    { assert (v = None) by (destruct v; [rewrite !andb_false_r in B2; discriminate | reflexivity]). subst v.
+      cbn [fst snd] in H. inversion H; subst log'. subst t' st a'.
+      exists (cl ++ cr), []. split; [exact L2|]. split; [rewrite Pl, Pr, !app_nil_r; reflexivity | reflexivity]. }
+    destruct v as [x|].
+    2:{ inversion H; subst log'. subst t' st a'.
+        exists (cl ++ cr), []. split; [exact L2|]. split; [rewrite Pl, Pr, !app_nil_r; reflexivity | reflexivity]. }
+    cbn [fst snd] in H.
+    assert (L3 : (p, x) :: log2 = rev ((cl ++ cr) ++ [(p, x)]) ++ log)
+      by (rewrite L2, (rev_app_distr (cl ++ cr)); reflexivity).
+    destruct (f (length log2) p x) as [[|]|] eqn:F.
+    + inversion H; subst log'. subst t' st a'. exists ((cl ++ cr) ++ [(p, x)]), [].
+      split; [exact L3|]. split; [rewrite Pl, Pr, app_nil_r, app_assoc; reflexivity | reflexivity].
+    + destruct (remove_self pfx V hp i p (Some x) l1 r1 a2) as [[t1 fl1] a3] eqn:RS.
+      inversion H; subst log'. subst t' st a'. exists ((cl ++ cr) ++ [(p, x)]), [].
+      split; [exact L3|]. split; [rewrite Pl, Pr, app_nil_r, app_assoc; reflexivity | reflexivity].
+    + inversion H; subst log'. subst t' st a'. exists (cl ++ cr), [(p, x)].
+      split; [exact L2|]. split; [rewrite Pl, Pr, app_assoc; reflexivity | intros N; congruence].
+Qed.
+End RX.
+
+Section RY.
+Variables (pfx V : Type) (bits : pfx -> list bool) (ok : pfx -> Prop).
+Notation key := (TrieWf.key pfx V bits).
+Notation key_lt := (TrieWf.key_lt pfx V bits).
+Notation wf_root := (TrieWf.wf_root pfx V bits ok).
+Variable f : nat -> pfx -> V -> option bool.
+
+Lemma beq_eq (a b : list bool) : beq a b = true <-> a = b.
+Proof.
+  unfold beq. rewrite andb_true_iff, !is_prefix_spec. split.
+  - intros [A B]. apply prefix_of_antisym; assumption.
+  - intros ->. split; apply prefix_of_refl.
+Qed.
+
+Definition dflt (o : option bool) : bool := match o with Some c => c | None => true end.
+
+(** the verdict the logged invocation on the entry with key [kp] returned *)
+Fixpoint gv (n : nat) (calls : list (pfx * V)) (kp : list bool) : bool :=
+  match calls with
+  | [] => true
+  | e :: cs => if beq (key e) kp then dflt (f n (fst e) (snd e)) else gv (S n) cs kp
+  end.
+
+Lemma gv_nth (calls : list (pfx * V)) : forall n k e,
+  NoDup (map key calls) -> nth_error calls k = Some e ->
+  gv n calls (key e) = dflt (f (n + k) (fst e) (snd e)).
+Proof.
+  induction calls as [|c cs IH]; intros n k e Hnd Hk; [destruct k; discriminate|].
+  inversion Hnd as [|? ? Hni Hnd']; subst. destruct k as [|k]; cbn in Hk.
+  - inversion Hk; subst. cbn [gv]. rewrite (proj2 (beq_eq _ _) eq_refl), Nat.add_0_r. reflexivity.
+  - cbn [gv]. destruct (beq (key c) (key e)) eqn:Bq.
+    + exfalso. apply beq_eq in Bq. apply Hni. rewrite Bq. apply in_map. eapply nth_error_In; exact Hk.
+    + rewrite Nat.add_succ_r. apply (IH (S n) k e Hnd' Hk).
+Qed.
+
+Section Calls.
+Variable calls : list (pfx * V).
+Definition gq (p : pfx) (x : V) : bool := gv 0 calls (bits p).
+(** a closure with count-independent verdicts that behaves like [f] on the run that logged [calls] *)
+Definition fq (n : nat) (p : pfx) (x : V) : option bool :=
+  match nth_error calls n with
+  | Some e => if beq (key e) (bits p) then f n (fst e) (snd e) else Some (gq p x)
+  | None => match f n p x with None => None | Some _ => Some (gq p x) end
+  end.
+
+Lemma fq_verdict : NoDup (map key calls) -> forall n p x c, fq n p x = Some c -> c = gq p x.
+Proof.
+  intros Hnd n p x c. unfold fq. destruct (nth_error calls n) as [e|] eqn:Hn.
+  - destruct (beq (key e) (bits p)) eqn:Bq.
+    + apply beq_eq in Bq. intros Hf. unfold gq. rewrite <- Bq, (gv_nth calls 0 n e Hnd Hn). cbn. rewrite Hf. reflexivity.
+    + intros H; inversion H; reflexivity.
+  - destruct (f n p x); intros H; inversion H; reflexivity.
+Qed.
+
+Lemma fq_logged n e : nth_error calls n = Some e -> fq n (fst e) (snd e) = f n (fst e) (snd e).
+Proof. unfold fq. intros ->. unfold TrieWf.key. rewrite (proj2 (beq_eq _ _) eq_refl). reflexivity. Qed.
+
+Lemma fq_beyond n p x : nth_error calls n = None -> (fq n p x = None <-> f n p x = None).
+Proof. unfold fq. intros ->. destruct (f n p x); split; intros H; try discriminate; reflexivity. Qed.
+End Calls.
+
+Lemma nodup_app_l {A} (a b : list A) : NoDup (a ++ b) -> NoDup a.
+Proof.
+  induction a as [|x a IH]; intros H; [constructor|]. cbn in H. inversion H as [|? ? Hni Hnd]; subst.
+  constructor; [intros Hin; apply Hni; apply in_or_app; left; exact Hin | apply IH; exact Hnd].
+Qed.
+
+(** MAIN: [retain] with ANY closure (stateful in the invocation count, panicking or not) *)
+Theorem retain_any_predicate (m m' : pmap pfx V) (panicked : bool) (calls : list (pfx * V)) :
+  wf_root (root m) -> retain pfx V f m = (m', panicked, calls) ->
+  exists g : pfx -> V -> bool,
+    (forall k e, nth_error calls k = Some e -> f k (fst e) (snd e) = Some (g (fst e) (snd e))) /\
+    wf_root (root m') /\ incl calls (entries (root m)) /\ NoDup calls /\
+    (forall e, In e (entries (root m')) <->
+               In e (entries (root m)) /\ ~ (In e calls /\ g (fst e) (snd e) = false)) /\
+    (panicked = false ->
+       entries (root m') = filter (fun e => g (fst e) (snd e)) (entries (root m)) /\
+       Permutation calls (entries (root m))) /\
+    (panicked = true ->
+       exists e, In e (entries (root m)) /\ ~ In e calls /\ f (length calls) (fst e) (snd e) = None).
+Proof.
+  intros Hwf H.
+  assert (Hwf0 : TrieWf.wf_under pfx V bits ok [] (root m)).
+  { destruct (root m); [destruct Hwf | exact (proj2 Hwf)]. }
+  pose proof H as H0. unfold Trie.retain in H0.
+  destruct (Trie.ret pfx V f false (root m) (al m, [])) as [[t' st] [a' log']] eqn:E.
+  injection H0 as Em Ep Ec.
+  destruct (ret_calls_post pfx V f _ _ _ _ _ _ _ _ E) as [c0 [rest [Lc [Pc _]]]].
+  rewrite app_nil_r in Lc.
+  assert (Ecalls : calls = c0) by (rewrite <- Ec, Lc; apply rev_involutive).
+  assert (Hnd : NoDup (map key calls)).
+  { assert (Hp : NoDup (map key (post pfx V (root m)))).
+    { eapply Permutation_NoDup; [apply Permutation_map; apply Permutation_sym; apply post_perm|].
+      apply (sorted_nodup_keys pfx V bits). eapply entries_sorted; exact Hwf0. }
+    rewrite Pc, map_app in Hp. rewrite Ecalls. eapply nodup_app_l; exact Hp. }
+  assert (E' : Trie.ret pfx V (fq calls) false (root m) (al m, []) = (t', st, (a', log'))).
+  { apply (proj2 (ret_ext pfx V f (fq calls) _ _ _ _ _ _ _ _ E)).
+    - intros k e Hk _. apply fq_logged. rewrite <- Ec. exact Hk.
+    - intros _ p x Hn. apply fq_beyond; [|exact Hn]. apply nth_error_None. rewrite <- Ec, rev_length. lia. }
+  assert (H' : retain pfx V (fq calls) m = (m', panicked, calls)).
+  { unfold Trie.retain. rewrite E'. rewrite Em, Ep, Ec. reflexivity. }
+  destruct (retain_spec pfx V bits ok (fq calls) (gq calls) (fq_verdict calls Hnd) m m' panicked calls Hwf H')
+    as [W [Pans [Pincl [Pnd [Pkept [Pdone Ppan]]]]]].
+  exists (gq calls).
+  split.
+  { intros k e Hk. rewrite <- (fq_logged calls k e Hk).
+    exact (answered_nth pfx V (fq calls) (gq calls) 0 calls Pans k e Hk). }
+  split; [exact W|]. split; [exact Pincl|]. split; [exact Pnd|]. split; [exact Pkept|]. split.
+  - intros Hp. destruct (Pdone Hp) as [A [B _]]. split; [exact A | exact B].
+  - intros Hp. destruct (Ppan Hp) as [e [He [Hne Hn]]]. exists e. split; [exact He|]. split; [exact Hne|].
+    apply (fq_beyond calls (length calls)); [|exact Hn]. apply nth_error_None. lia.
+Qed.
+End RY.
+
 Print Assumptions run_drains.
 Print Assumptions drains_fun.
 Print Assumptions drains_pull.
@@ -335,3 +609,6 @@ Print Assumptions cover_walk_filter.
 Print Assumptions len_sorted_hd.
 Print Assumptions len_sorted_last.
 Print Assumptions answered_nth.
+Print Assumptions ret_ext.
+Print Assumptions ret_calls_post.
+Print Assumptions retain_any_predicate.
